@@ -308,9 +308,9 @@ RESULTS = [100, 101, 'r2', [103, 'in-a-list'], None, 105.5, {'r': 6}]
 
 def gen_waiter(rng, tier):
     kmax = 4 if tier == 'quick' else 6
-    per_k = {0: 3, 1: 3, 2: 4, 3: 4, 4: 2 if tier == 'quick' else 4, 5: 2, 6: 1 if tier == 'thorough' else 0}
+    per_k = ({0: 3, 1: 3, 2: 4, 3: 4, 4: 2} if tier == 'quick' else {0: 4, 1: 4, 2: 6, 3: 6, 4: 6, 5: 4, 6: 3})
     for k in range(kmax + 1):
-        for s in range(per_k[k] if tier == 'quick' else per_k[k] + 1):
+        for s in range(per_k[k]):
             w = w_struct(rng, k, rng.choice([1, 2, 3, 4]))
             ws = enc_w(w)
             for order in itertools.permutations(range(k)):
@@ -328,15 +328,15 @@ def generate(rng, tier):
     # corpus-like fixed cases first: F9 (nested container with positional companions)
     yield dict(tag='lift depth=2 companions=scalar pos', lines=[call_line([[[1, 2]], 5], {})])
     yield dict(tag='lift depth=2 companions=same pos', lines=[call_line([[[1, 2], [3, 4]], [[5, 6], [7, 8]]], {'b': [[0, 0], [1, 1]]})])
-    for _ in range(900 if q else 20000):
+    for _ in range(4000 if q else 40000):
         yield gen_call(rng)
-    for _ in range(100 if q else 2000):
+    for _ in range(400 if q else 4000):
         yield gen_call(rng, bad=0.2)
-    for _ in range(300 if q else 6000):
+    for _ in range(1200 if q else 12000):
         yield gen_lib(rng)
-    for _ in range(300 if q else 6000):
+    for _ in range(1200 if q else 12000):
         yield gen_zip(rng, 'zipper')
-    for _ in range(120 if q else 2000):
+    for _ in range(400 if q else 4000):
         yield gen_zip(rng, 'lens')
     for c in gen_as(rng):
         yield c
@@ -536,7 +536,7 @@ def laws(rng, tier, ctx):
     import pyg_base
     from pyg_base import zipper, as_list, as_tuple
     count = 0
-    n = 600 if tier == 'quick' else 12000
+    n = 2000 if tier == 'quick' else 20000
     L = lifted(named)
     LR = lifted(rec)
     for _ in range(n):
